@@ -10,6 +10,9 @@ for f in sorted(glob.glob(os.path.join(ROOT, 'seeded', '*', 'meta.json'))):
     others = [p for p in m.get('caught_by', []) if p != m['property']]
     first = (tgt.get('detail') or [''])[0].strip()[:150]
     conf = m.get('confirmed', {})
+    bs = m.get('before_strengthening')
+    if bs is not None and not bs.get('caught_by_target_check'):
+        first = '(MISSED by the target check before the strengthening described in DESIGN.md 13.6; other checks then: %s) ' % (', '.join(bs.get('caught_by') or []) or '-') + first
     rows.append("| %s | %s | %s | %s | %s | %s |" % (
         m['id'], m['property'], 'yes' if all(conf.values()) and conf else str(conf),
         ('VIOLATION, %d with a concrete failing input' % tgt.get('with_failing_input', 0)) if tgt.get('exit') else 'MISSED',
